@@ -528,6 +528,93 @@ def check_wrapper_refusal(op, status, ext, estatus=0):
     return discs
 
 
+class _Patch:
+    """wraps a target: replies selected by `when(request frame)` are changed by `how(reply)` (status words or length)"""
+
+    def __init__(self, inner, when, how):
+        self.inner, self.when, self.how, self.hits = inner, when, how, 0
+
+    def handle(self, frame):
+        reply = self.inner.handle(frame)
+        if reply is not None and self.when(frame):
+            self.hits += 1
+            reply = self.how(reply)
+        return reply
+
+    def tcp_closed(self):
+        self.inner.tcp_closed()
+
+    def __getattr__(self, name):
+        return getattr(self.inner, name)
+
+
+def check_patched_reply(scn, arg):
+    """one kind of reply is made unacceptable (its encapsulation status, its general status, or its length) while the rest of it
+    stays complete: the call that consumes it must not report success, and nothing but a library exception may escape"""
+    from pycomm3 import CIPDriver, LogixDriver
+    from pycomm3.exceptions import PycommError
+    from ..refplc import RefPLC
+    pd = {"udts": [{"name": "U", "tid": 0x321, "handle": 0x4321, "size": 8, "string": None, "predefined": False, "name_has_semicolon": True, "dim_flag": False,
+                    "members": [{"name": "a", "kind": "atomic", "type": "DINT", "array": 0, "offset": 0, "hidden": False},
+                                {"name": "b", "kind": "atomic", "type": "INT", "array": 0, "offset": 4, "hidden": False}]}],
+          "programs": [], "extras": [], "tags": [
+        {"name": "A", "scope": None, "type": "DINT", "dims": [], "instance": 3, "access": 0, "alias": False},
+        {"name": "B", "scope": None, "type": "INT", "dims": [4], "instance": 4, "access": 0, "alias": False},
+        {"name": "u", "scope": None, "type": "U", "dims": [], "instance": 6, "access": 0, "alias": False},
+        {"name": "big", "scope": None, "type": "DINT", "dims": [300], "instance": 5, "access": 0, "alias": False}]}
+    tgt = RefPLC(pd, {"/A": (11).to_bytes(4, "little"), "/B": bytes(range(8)), "/u": bytes(8), "/big": bytes(range(200)) * 6}, {"fo_policy": "std"})
+    est = lambda r: r[:8] + struct.pack("<I", arg) + r[12:]
+    discs = []
+
+    def guard(name, fn):
+        try:
+            return fn()
+        except PycommError:
+            return PycommError
+        except Exception as e:
+            if S.where(e) == "harness":
+                raise
+            discs.append(Disc(f"patched.{scn}.foreign.{type(e).__name__}", f"{name} (arg {arg}): {e!r}"[:300]))
+            return PycommError
+
+    try:
+        if scn == "list_identity.estatus":
+            front = _Patch(tgt, lambda f: f[0] == 0x63, est)
+            harness.install(front)
+            got = guard("list_identity", lambda: CIPDriver.list_identity("10.0.0.5"))
+            if got is not PycommError and got:
+                discs.append(Disc("patched.list_identity.error-accepted", f"ListIdentity reply with encapsulation status {arg:#x} returned {str(got)[:120]}"))
+        elif scn == "template.estatus":
+            front = _Patch(tgt, lambda f: len(f) > 50 and f[0] == 0x70 and f[46] == 0x4C and f[48:50] == b"\x20\x6c", est)
+            harness.install(front)
+            plc = LogixDriver("10.0.0.5")
+            got = guard("open", plc.open)
+            if got is not PycommError and front.hits and got:
+                discs.append(Disc("patched.template.error-accepted", f"a template read reply with encapsulation status {arg:#x} was used: open() returned {got!r}"))
+            guard("close", plc.close)
+        else:
+            harness.install(tgt)
+            plc = LogixDriver("10.0.0.5")
+            plc.open()
+            if scn == "multi.gstatus":
+                # the wrapper's general status is an error although member replies follow (0x1E and 6 are the legitimate exceptions)
+                front = _Patch(tgt, lambda f: len(f) > 47 and f[0] == 0x70 and f[46] == 0x0A, lambda r: r[:48] + bytes([arg]) + r[49:])
+                call = lambda: plc.read("A", "B{2}")
+            else:   # "readfrag.cut": the first reply of a fragmented read is cut to `arg` bytes
+                front = _Patch(tgt, lambda f: len(f) > 47 and f[0] == 0x70 and f[46] == 0x52 and front.hits == 0, lambda r: r[:arg])
+                call = lambda: plc.read("big{300}")
+            harness.CURRENT["target"] = front
+            got = guard(scn, call)
+            if got is not PycommError and front.hits:
+                tags = got if isinstance(got, list) else [got]
+                if (scn == "multi.gstatus" or arg < 50) and all(bool(t) for t in tags):
+                    discs.append(Disc(f"patched.{scn.split('.')[0]}.error-accepted", f"{scn} {arg}: every result is truthy: {str(tags)[:200]}"))
+            guard("close", plc.close)
+    finally:
+        harness.uninstall()
+    return discs
+
+
 def check_time_value(us):
     """the controller reports a clock value of `us` microseconds: get_plc_time answers with a Tag (falsy if the value cannot be
     represented) or a library exception, never anything else"""
@@ -630,6 +717,13 @@ def run_job(ctx, job):
                     for d in check_wrapper_refusal(op, status, ext):
                         ctx.violation(d, "wrapper", {"op": op, "status": status, "ext": ext, "estatus": 0})
                     ctx.case(("wrapper", op, status, tuple(ext)), True, ["matrix", "wrapper-refusal"])
+            if op == "read":
+                cases = [("list_identity.estatus", e) for e in (1, 2, 3, 0x64, 0x65, 0x69, 0xFFFF)] + [("template.estatus", e) for e in (1, 3, 0x64)] + \
+                        [("multi.gstatus", g) for g in (1, 2, 4, 5, 8, 0x13, 0x20, 0xFF)] + [("readfrag.cut", c) for c in range(0, 64)]
+                for scn, a in cases:
+                    for d in check_patched_reply(scn, a):
+                        ctx.violation(d, "patched", {"scn": scn, "arg": a})
+                    ctx.case(("patched", scn, a), True, ["corrupt", "patched-reply"])
             for us in [0, 1, 1_600_000_000_000_000, 253402300799999999, 253402300800000000, 2 ** 63 - 1, 2 ** 63, 2 ** 64 - 1]:
                 for d in check_time_value(us):
                     ctx.violation(d, "time", {"us": us})
@@ -707,6 +801,8 @@ def replay(ctx, kind, case):
         return check_unknown_type(case["code"])
     if kind == "time":
         return check_time_value(case["us"])
+    if kind == "patched":
+        return check_patched_reply(case["scn"], case["arg"])
     if kind == "wrapper":
         return check_wrapper_refusal(case["op"], case["status"], case["ext"], case.get("estatus", 0))
     return check_corrupt(case)
